@@ -19,7 +19,7 @@ func init() {
 			return o.Hist.FaultFired["net:down"]+o.Hist.FaultFired["net:blackhole"] > 0 && o.Hist.Probes["batch-checked"] > 0
 		},
 		Rule:         "seeded plans: one upstream with 1-4 servers (primary / backup mixes), policy first / roundRobin / random / leastconn, optional http ping path; a scripted sequence of network events (server refuses connections, black-holes them until the check times out, accepts again); after every event the simulated clock is advanced by 30-41s (settle: rest of a running check round + next tick + one full round of sequential 3s-timeout probes), then a sequential batch of 4-12 requests. The health checker is the real library code driven by the fake ticker; only the TCP dial is simulated. Oracle after settle: every request reaches a server that is up, a backup only if no primary is up, round robin spreads a batch evenly over the healthy primaries (counts differ by <= 1), with no server up every request gets a 5xx at once without reaching any origin, and traffic resumes by itself after recovery. non-trivial = at least one outage was injected and a batch checked; distinct = distinct history hash",
-		ExpectProbes: []string{"batch-checked", "batch-all-down", "batch-backup-only", "batch-after-recovery", "round-robin-batch", "blackhole-settled"},
+		ExpectProbes: []string{"batch-checked", "batch-all-down", "batch-backup-only", "batch-after-recovery", "round-robin-batch", "blackhole-settled", "reload-of-unchanged-upstream"},
 	})
 }
 
@@ -65,6 +65,11 @@ func genC19(g *Gen) *Plan {
 			for _, a := range addrs {
 				p.Ops = append(p.Ops, Op{Kind: OpHealth, Server: a, Net: pick(g, "down", "blackhole")})
 			}
+		}
+		if g.p(0.3) {
+			// the same configuration is applied again (an update that touched something else):
+			// health checking of the unchanged upstream must go on afterwards
+			p.Ops = append(p.Ops, Op{Kind: OpReload, Config: 0, Barrier: true})
 		}
 		// settle: the checker probes the servers one after the other (3s timeout each
 		// when black-holed) on a 5s ticker that drops ticks while a round is running:
@@ -191,8 +196,11 @@ func oracleC19(o *Outcome) []Violation {
 			if op.Net == "blackhole" {
 				o.Hist.Probes["blackhole-settled"]++
 			}
-		case OpSleep:
+		case OpSleep, OpReload:
 			flush()
+			if op.Kind == OpReload {
+				o.Hist.Probes["reload-of-unchanged-upstream"]++
+			}
 		case OpReq:
 			if v := byOp[i]; v != nil && v.R.ReturnSeq >= 0 {
 				batch = append(batch, v)
